@@ -34,7 +34,7 @@ for sid in ids:
             continue
         t0 = time.time()
         tier = meta.get("tier", "quick")
-        p = subprocess.run([os.path.join(root, "check"), prop, "--tier", tier], env=dict(os.environ, VERIF_REPO=wt),
+        p = subprocess.run([os.path.join(root, "check"), prop, "--tier", tier], env=dict(os.environ, VERIF_REPO=wt, VERIF_EVIDENCE_DIR="/tmp/seeded-evidence"),
                            capture_output=True, text=True, cwd=root)
         line = [l for l in p.stdout.splitlines() if l.startswith("VIOLATION")]
         if p.returncode == 1 and line:
